@@ -9,7 +9,7 @@ def keep(line):
 
 
 def run(ctx):
-    cc.run(ctx, FILES, ['flat'], n_quick=1500, n_thorough=60000, keep=keep, what='CallbackList (flat histories)')
+    cc.run(ctx, FILES, ['flat', 'flat', 'nested'], n_quick=1800, n_thorough=60000, keep=keep, what='CallbackList (flat histories, one third re-entrant)')
 
 
 def replay(ctx, path):
